@@ -5,6 +5,7 @@ CONSTANTS
   WAng <- Ang
   WCombo <- ComboSim
   WStart <- Frames
+  WRepeat = TRUE
   RNy <- RNyAll
   ROffH <- ROffAll
   RPosQ <- RPosSet
@@ -24,5 +25,7 @@ INVARIANT SnapResidual
 INVARIANT MaskAgree
 INVARIANT RoundTripI
 INVARIANT VoxelHasRow
+INVARIANT FunctionOfCurrentValues
+INVARIANT RepeatWellFormed
 INVARIANT EmitWalk
 CHECK_DEADLOCK FALSE
